@@ -512,3 +512,58 @@ def scatter_alignment_rule(chk, cid, prog, cfgname):
                                 '`%s` and `%s` do not move the same triplet into the same slot: the pattern stays right but values end up at other positions'
                                 % (pretty(idx[0][2]), pretty(val[0][2])), cfgname=cfgname)
     return n
+
+
+def scan_width_rule(chk, cid, prog, cfgname, units_prefix=('SRC/', 'EXAMPLE/', 'FORTRAN/')):
+    """Every string conversion (%s, %[..]) of a scanf-family call stores into a fixed-size character array; without a field width the length of
+    the token in the *file* decides how much is written.  Each such conversion must carry a width, and the width must leave room for the
+    terminator in the array that receives it (width <= size - 1).  A Matrix Market comment line `%-----...` of 80 dashes is well-formed input."""
+    import re
+    from ..run import AnalysisBroken
+    chk.clause(cid, 'string conversions of scanf-family calls are bounded by the size of the receiving array')
+    n = 0
+    SCAN = {'sscanf': 2, 'fscanf': 2, 'scanf': 1}
+    for f in prog.all_funcs():
+        if not f.unit.startswith(units_prefix):
+            continue
+        for call in f.body.walk():
+            if call.k != 'Call' or callee_name(call) not in SCAN:
+                continue
+            args = call.c[1:]
+            fi = SCAN[callee_name(call)] - 1
+            fmt = strip(args[fi]) if len(args) > fi else None
+            if fmt is None or fmt.k != 'Str':
+                continue
+            text = fmt.a.get('value') or ''
+            text = text[1:-1] if text.startswith('"') else text
+            k = fi + 1
+            for m in re.finditer(r'%(\*?)(\d*)(hh|h|ll|l|L|q|j|z|t)?(\[\^?\]?[^\]]*\]|[a-zA-Z%])', text):
+                star, width, _, conv = m.groups()
+                if conv == '%':
+                    continue
+                if star:
+                    continue
+                arg = args[k] if k < len(args) else None
+                k += 1
+                if conv[0] not in ('s', '[') or arg is None:
+                    continue
+                n += 1
+                chk.saw(unit=f.unit, func=f.unit + ':' + f.name)
+                r = root_ref(arg)
+                nm = r.a.get('name') if r is not None else pretty(arg)[:20]
+                size = array_size(r.t) if r is not None else None
+                inst = '%s:%s:%%%s->%s@%d' % (f.unit, f.name, conv[0], nm, n)
+                if not width:
+                    chk.violate(cid, '%s:unbounded-string-conversion:%s' % (f.name, nm), loc(f, call), f.name,
+                                '`%s` stores a token of the input into `%s`%s with no field width: a longer token in the file (a comment line of dashes, a '
+                                'long keyword) is written past the end of the array' % (pretty(call)[:70], nm, ' (%d bytes)' % size if size else ''),
+                                cfgname=cfgname)
+                elif size is not None and int(width) > size - 1:
+                    chk.violate(cid, '%s:string-conversion-wider-than-array:%s' % (f.name, nm), loc(f, call), f.name,
+                                'field width %s of `%s` does not leave room for the terminator in `%s` (%d bytes)' % (width, pretty(call)[:60], nm, size),
+                                cfgname=cfgname)
+                else:
+                    chk.ok(cid, inst, sample='width %s, array of %s bytes' % (width, size if size is not None else '?'), nontrivial=size is not None)
+    if n < 16:
+        raise AnalysisBroken('%s: only %d string conversions found in scanf-family calls (floor 16)' % (cid, n))
+    return n
